@@ -22,6 +22,8 @@ import (
 	sdk "github.com/cosmos/cosmos-sdk/types"
 	authtypes "github.com/cosmos/cosmos-sdk/x/auth/types"
 	banktypes "github.com/cosmos/cosmos-sdk/x/bank/types"
+	govtypes "github.com/cosmos/cosmos-sdk/x/gov/types"
+	govv1 "github.com/cosmos/cosmos-sdk/x/gov/types/v1"
 	slashingtypes "github.com/cosmos/cosmos-sdk/x/slashing/types"
 
 	"github.com/medibloc/panacea-core/v2/app"
@@ -63,6 +65,9 @@ func NewAccount(name string) Account {
 	addr := sdk.AccAddress(priv.PubKey().Address())
 	return Account{Name: name, Priv: priv, Addr: addr, Bech: addr.String()}
 }
+
+// GovVotingPeriod is the governance voting period of every generated genesis.
+const GovVotingPeriod = 50000 * time.Second
 
 // GenesisTime is the fixed chain start; header times are derived from it.
 var GenesisTime = time.Date(2024, 1, 1, 0, 0, 0, 0, time.UTC)
@@ -244,6 +249,11 @@ func (c *Chain) buildGenesis(gopts GenesisOptions) ([]byte, error) {
 	sl.SigningInfos = []slashingtypes.SigningInfo{{Address: cons.String(),
 		ValidatorSigningInfo: slashingtypes.NewValidatorSigningInfo(cons, 0, 0, time.Unix(0, 0).UTC(), false, 0)}}
 	gs[slashingtypes.ModuleName] = cdc.MustMarshalJSON(sl)
+	// a voting period that generated block-time steps (up to 100000 s) can cross
+	gv := govv1.DefaultGenesisState()
+	vp := GovVotingPeriod
+	gv.Params.VotingPeriod = &vp
+	gs[govtypes.ModuleName] = cdc.MustMarshalJSON(gv)
 	if gopts.Mutate != nil {
 		gopts.Mutate(func(v interface{}) []byte {
 			bz, err := json.Marshal(v)
